@@ -87,6 +87,8 @@ type Obligation struct {
 	IsCover bool
 	relaxed bool
 	refute  *Term
+	parts   []*Term // conjuncts of the goal that may be discharged separately (one per return path)
+	partIdx int     // >0: query only parts[partIdx-1]
 	Relaxed bool // counterexample found only after dropping quantified hypotheses
 }
 
@@ -116,6 +118,74 @@ type Ctx struct {
 	splits    [][]*Term // each entry: exhaustive list of case hypotheses
 	trivialSafety int
 	witness   []witnessTerm
+	escaped   map[int]bool       // allocation ids whose address may be known outside the verified function
+	allocType map[int]types.Type // allocation id -> allocated type (objects created by Alloc)
+}
+
+// noteEscape records that the object a value points into may be reachable by callees.
+func (cx *Ctx) noteEscape(v *Term) {
+	if v == nil {
+		return
+	}
+	var l *Term
+	switch v.sort {
+	case SLoc:
+		l = v
+	case SSlice:
+		l = cx.w.sbase(v)
+	case SIface:
+		l = cx.w.iptr(v)
+	default:
+		return
+	}
+	for depth := 0; depth < 12; depth++ {
+		d := def(l)
+		switch locCtor(d) {
+		case "New":
+			var k int
+			fmt.Sscan(d.args[0].op, &k)
+			if cx.escaped == nil {
+				cx.escaped = map[int]bool{}
+			}
+			cx.escaped[k] = true
+			return
+		case "Fld", "Elem":
+			l = d.args[0]
+		default:
+			if d.op == "ite" && len(d.args) == 3 {
+				cx.noteEscape(d.args[1])
+				cx.noteEscape(d.args[2])
+			}
+			return
+		}
+	}
+}
+
+// leaves enumerates the leaf cells of an enumerable type.
+func (cx *Ctx) leaves(loc *Term, t types.Type, fn func(loc *Term, t types.Type)) {
+	b, w := cx.w.b, cx.w
+	if ov, ok := overlayOf(t); ok {
+		cx.leaves(b.Elem(loc, b.BV(0, 64)), ov, fn)
+		return
+	}
+	if isLeafType(t) {
+		fn(loc, t)
+		return
+	}
+	switch u := t.Underlying().(type) {
+	case *types.Struct:
+		si := w.structInfo(t)
+		for _, f := range si.Fields {
+			cx.leaves(b.Fld(loc, f.FID), f.Type, fn)
+		}
+		for _, f := range si.Ghosts {
+			cx.leaves(b.Fld(loc, f.FID), f.Type, fn)
+		}
+	case *types.Array:
+		for i := int64(0); i < u.Len(); i++ {
+			cx.leaves(b.Elem(loc, b.BV(uint64(i), 64)), u.Elem(), fn)
+		}
+	}
 }
 
 type witnessTerm struct {
@@ -193,6 +263,9 @@ const smallArray = 16
 // load reads a value of Go type t stored at loc.
 func (cx *Ctx) load(st *State, loc *Term, t types.Type) *Term {
 	w, b := cx.w, cx.w.b
+	if ov, ok := overlayOf(t); ok {
+		return cx.load(st, b.Elem(loc, b.BV(0, 64)), ov)
+	}
 	if _, ok := opaqueLE(t); ok {
 		return b.Select(st.heap(cx, w.heapName(w.sortOf(t))), loc)
 	}
@@ -234,6 +307,9 @@ func isLeafType(t types.Type) bool {
 	if _, ok := opaqueLE(t); ok {
 		return true
 	}
+	if _, ok := overlayOf(t); ok {
+		return false
+	}
 	switch t.Underlying().(type) {
 	case *types.Struct, *types.Array:
 		return false
@@ -244,6 +320,10 @@ func isLeafType(t types.Type) bool {
 // store writes v (of Go type t) at loc, under guard g (nil = unconditional).
 func (cx *Ctx) store(st *State, loc *Term, t types.Type, v *Term) {
 	w, b := cx.w, cx.w.b
+	if ov, ok := overlayOf(t); ok {
+		cx.store(st, b.Elem(loc, b.BV(0, 64)), ov, v)
+		return
+	}
 	if _, ok := opaqueLE(t); !ok {
 		switch u := t.Underlying().(type) {
 		case *types.Struct:
@@ -284,6 +364,11 @@ func (cx *Ctx) store(st *State, loc *Term, t types.Type, v *Term) {
 // object of type typ whose address satisfies root".
 func (cx *Ctx) inside(l *Term, typ types.Type, srt Sort, root func(x *Term) *Term) *Term {
 	w, b := cx.w, cx.w.b
+	if ov, ok := overlayOf(typ); ok {
+		return cx.inside(l, ov, srt, func(x *Term) *Term {
+			return b.And(b.mk("(_ is Elem)", SBool, x), b.Eq(b.App("eidx", SBV(64), x), b.BV(0, 64)), root(b.App("ebase", SLoc, x)))
+		})
+	}
 	if isLeafType(typ) {
 		if w.sortOf(typ) == srt {
 			return root(l)
@@ -313,6 +398,10 @@ func (cx *Ctx) inside(l *Term, typ types.Type, srt Sort, root func(x *Term) *Ter
 // leafSorts lists the leaf sorts occurring in typ.
 func (cx *Ctx) leafSorts(typ types.Type, out map[Sort]bool) {
 	w := cx.w
+	if ov, ok := overlayOf(typ); ok {
+		cx.leafSorts(ov, out)
+		return
+	}
 	if isLeafType(typ) {
 		out[w.sortOf(typ)] = true
 		return
@@ -374,8 +463,27 @@ func (cx *Ctx) havocLoc(st *State, m ModLoc) {
 		for _, s := range []Sort{SBool, SBV(8), SBV(16), SBV(32), SBV(64), SInt, SLoc, SSlice, SIface} {
 			w.heapName(s)
 		}
+		old := st.clone()
 		for _, hn := range sortedKeys(w.heapSort) {
 			st.set(hn, b.Const("hvall_"+hn, w.heapSort[hn]))
+		}
+		// local variables of the verified function whose address never left it are out of reach
+		var ks []int
+		for k := range cx.allocType {
+			if !cx.escaped[k] {
+				ks = append(ks, k)
+			}
+		}
+		sort.Ints(ks)
+		for _, k := range ks {
+			t := cx.allocType[k]
+			if !cx.enumerable(t) {
+				continue
+			}
+			cx.leaves(b.NewObj(k), t, func(loc *Term, lt types.Type) {
+				hn := w.heapName(w.sortOf(lt))
+				st.set(hn, b.Store(st.heap(cx, hn), loc, b.Select(old.heap(cx, hn), loc)))
+			})
 		}
 		return
 	}
@@ -422,6 +530,9 @@ func (cx *Ctx) enumerable(t types.Type) bool {
 	if isLeafType(t) {
 		return true
 	}
+	if ov, ok := overlayOf(t); ok {
+		return cx.enumerable(ov)
+	}
 	switch u := t.Underlying().(type) {
 	case *types.Struct:
 		si := cx.w.structInfo(t)
@@ -439,6 +550,10 @@ func (cx *Ctx) enumerable(t types.Type) bool {
 
 func (cx *Ctx) havocEnum(st *State, loc *Term, t types.Type) {
 	w, b := cx.w, cx.w.b
+	if ov, ok := overlayOf(t); ok {
+		cx.havocEnum(st, b.Elem(loc, b.BV(0, 64)), ov)
+		return
+	}
 	if isLeafType(t) {
 		s := w.sortOf(t)
 		v := b.Const("hv", s)
@@ -489,6 +604,9 @@ func (cx *Ctx) typeInv(v *Term, t types.Type) *Term {
 	w, b := cx.w, cx.w.b
 	if _, ok := opaqueLE(t); ok {
 		return b.True()
+	}
+	if ov, ok := overlayOf(t); ok {
+		return cx.typeInv(v, ov)
 	}
 	switch u := t.Underlying().(type) {
 	case *types.Slice:
@@ -717,17 +835,33 @@ func (o *Obligation) refutations() []*Term {
 
 // QueryRelaxed drops the quantified hypotheses: a model of it is only a
 // candidate counterexample (it must be confirmed by replay on the real code).
+// QueryPart renders the query for one conjunct of the goal.
+func (o *Obligation) QueryPart(k int) string {
+	o.cx.w.mu.Lock()
+	defer o.cx.w.mu.Unlock()
+	o.partIdx = k + 1
+	defer func() { o.partIdx = 0 }()
+	return o.queryLocked(true, nil)
+}
+
 func (o *Obligation) QueryRelaxed(refutation *Term) string {
+	o.cx.w.mu.Lock()
+	defer o.cx.w.mu.Unlock()
 	o.relaxed = true
 	o.refute = refutation
 	defer func() { o.relaxed = false; o.refute = nil }()
-	return o.QueryCase(true, nil)
+	return o.queryLocked(true, nil)
 }
 
 func (o *Obligation) QueryCase(getModel bool, hyp *Term) string {
 	cx := o.cx
 	cx.w.mu.Lock()
 	defer cx.w.mu.Unlock()
+	return o.queryLocked(getModel, hyp)
+}
+
+func (o *Obligation) queryLocked(getModel bool, hyp *Term) string {
+	cx := o.cx
 	w := cx.w
 	var body strings.Builder
 	di := 0
@@ -764,6 +898,10 @@ func (o *Obligation) QueryCase(getModel bool, hyp *Term) string {
 		body.WriteString("(assert ")
 		o.refute.write(&body)
 		body.WriteString(")\n")
+	} else if o.partIdx > 0 {
+		body.WriteString("(assert (not ")
+		o.parts[o.partIdx-1].write(&body)
+		body.WriteString("))\n")
 	} else {
 		body.WriteString("(assert (not ")
 		o.goal.write(&body)
